@@ -20,6 +20,9 @@ for d in sorted(glob.glob('/verif/seeded/C*-*')):
         verdict = 'caught by ' + ', '.join(hs[:3])
     elif res['exit_code'] == 0:
         verdict = '**missed**'
+        o = meta.get('caught_by_other_property')
+        if o:
+            verdict = f"**missed** by {meta['property']}'s check; caught by {o['harness']} (./check {o['property']})"
     else:
         verdict = 'inconclusive: ' + '; '.join(res.get('inconclusive_reasons', [])[:1])[:80]
     rows.append((sid, ', '.join(os.path.basename(f) for f in files), title, verdict))
@@ -28,4 +31,5 @@ print('|---|---|---|---|')
 for r in rows:
     print('| ' + ' | '.join(x.replace('|', '/') for x in r) + ' |')
 caught = sum(1 for r in rows if r[3].startswith('caught'))
-print(f'\n{caught} of {len(rows)} caught by the quick tier of the property they were written against.')
+other = sum(1 for r in rows if 'caught by' in r[3] and not r[3].startswith('caught'))
+print(f'\n{caught} of {len(rows)} caught by the quick tier of the property they were written against' + (f'; {other} more only by the check of another property.' if other else '.'))
